@@ -1028,7 +1028,7 @@ where
     V: RecognizerReadable,
 {
     type Rec = HashMapRecognizer<K::Rec, V::Rec>;
-    type AttrRec = HashMapRecognizer<K::Rec, V::Rec>;
+    type AttrRec = CollaspsibleRec<HashMapRecognizer<K::Rec, V::Rec>>;
     type BodyRec = HashMapRecognizer<K::Rec, V::Rec>;
 
     fn make_recognizer() -> Self::Rec {
@@ -1036,7 +1036,15 @@ where
     }
 
     fn make_attr_recognizer() -> Self::AttrRec {
-        HashMapRecognizer::new_attr(K::make_recognizer(), V::make_recognizer())
+        // As for vectors, the entries can be the body of the attribute itself or a record that is the single
+        // item of that body (which is how the attribute is presented when it is read from a model value).
+        FirstOf::new(
+            HashMapRecognizer::new_attr(K::make_recognizer(), V::make_recognizer()),
+            SimpleAttrBody::new(HashMapRecognizer::new(
+                K::make_recognizer(),
+                V::make_recognizer(),
+            )),
+        )
     }
 
     fn make_body_recognizer() -> Self::BodyRec {
